@@ -376,6 +376,9 @@ def css_tie(ctx, hs, rs, limit):
             if dd:
                 stats['disagreements'] += 1
                 diffs[k] = dd
+    if not diffs and not any(b.get('kind') == 'model-evaluation' for b in ctx.broken):
+        import shutil
+        shutil.rmtree(d, ignore_errors=True)   # case files are kept only when something is wrong
     return diffs, stats
 
 
